@@ -47,9 +47,8 @@ whatever the previous template left behind. -/
 theorem template_start_resets_indent (l : L) : (sumL (gohtStartSig l)).indent = 0 := by
   unfold gohtStartSig
   simp only []
-  split
-  · rw [gohtStartLoop_indent]; simp [L.ignore]
-  · simp [sumL, L.ignore]
+  rw [gohtStartLoop_indent]
+  split <;> simp [L.ignore]
 
 /-- **First line must be indented** — with remembered indentation 0, a line that starts without
 blank or tab is refused. -/
